@@ -557,14 +557,21 @@ def subst_guard(g, amap, inst):
     return (g[0], subst_term(g[1], amap, inst) if g[1] is not None else None, (inst,) + tuple(g[2]))
 
 
-def instantiate_path(cp, args, inst, caller_held, callee, amap=None):
-    """events of callee path `cp` with its parameters replaced by the caller's argument terms"""
+def instantiate_path(cp, args, inst, caller_held, callee, amap=None, writes=None):
+    """events of callee path `cp` with its parameters replaced by the caller's argument terms.
+    `writes` (a list) receives (parameter index, new value) for every assignment through a parameter
+    itself (`*param = v`), so the caller can update the local a `&mut` argument points to"""
     if amap is None:
         amap = {i + 1: a for i, a in enumerate(args)}
     out = []
     retv = ('unk', 'ret')
     ret_held = caller_held
     for e in cp.events:
+        if writes is not None and e.kind == 'assign' and e.d['place'][0] == 'arg':
+            writes.append((e.d['place'][1], subst_term(e.d['value'], amap, inst)))
+            # later reads of the parameter inside the helper see the new value
+            amap = dict(amap)
+            amap[e.d['place'][1]] = subst_term(e.d['value'], amap, inst)
         d = {}
         for k, v in e.d.items():
             if k in ('term', 'value', 'place', 'result', 'on'):
@@ -590,6 +597,7 @@ def instantiate_path(cp, args, inst, caller_held, callee, amap=None):
 OPT = 'std::option::Option'
 RES = 'std::result::Result'
 NONE_TERM = ('agg', OPT, 'None', (), '')
+UNIT_TERM = ('const', '()')
 
 
 def mk_some(v):
@@ -632,6 +640,8 @@ def combinator_plan(callee, args):
             return x, OPT, [('Some', ('val', S)), ('None', ('app', args[1], [], ident))]
         if m == 'ok_or_else' and len(args) == 2:
             return x, OPT, [('Some', ('val', mk_ok(S))), ('None', ('app', args[1], [], mk_err))]
+        if m == 'ok_or' and len(args) == 2:
+            return x, OPT, [('Some', ('val', mk_ok(S))), ('None', ('val', mk_err(args[1])))]
         if m == 'is_some_and' and len(args) == 2:
             return x, OPT, [('Some', ('app', args[1], [S], ident)), ('None', ('val', ('const', 'false')))]
         if m == 'is_none_or' and len(args) == 2:
@@ -662,6 +672,20 @@ def combinator_plan(callee, args):
             return x, RES, [('Ok', ('val', ('const', 'false'))), ('Err', ('app', args[1], [E], ident))]
     if 'core::bool::' in callee and callee.endswith('::then') and len(args) == 2:
         return args[0], 'bool', [('true', ('app', args[1], [], mk_some)), ('false', ('val', NONE_TERM))]
+    # iter.for_each(f): the loop `for x in iter { f(x) }`, analysed like a loop body (zero or one iteration per path)
+    if nc.endswith('Iterator>::for_each') or nc.endswith('Iterator::for_each'):
+        if len(args) == 2 and args[1][0] == 'closure':
+            return args[0], 'foreach', [('Some', ('app', args[1], [None], lambda v: UNIT_TERM)), ('None', ('val', UNIT_TERM))]
+    # iter.any(p) / iter.all(p) / iter.find(p): the early-exit loop they abbreviate (zero or one iteration per path); the
+    # predicate's verdict is a decision of the path, exactly as `if p(x) { return .. }` would be
+    for meth, on_none, on_true, on_false in (('any', ('const', 'false'), lambda it: ('const', 'true'), ('const', 'false')),
+                                             ('all', ('const', 'true'), lambda it: ('const', 'true'), ('const', 'false')),
+                                             ('find', NONE_TERM, lambda it: mk_some(it), NONE_TERM)):
+        if (nc.endswith('Iterator>::' + meth) or nc.endswith('Iterator::' + meth)) and len(args) == 2 and args[1][0] == 'closure':
+            return args[0], 'foreach', [('Some', ('app', args[1], [None], lambda v: v, (on_true, on_false))), ('None', ('val', on_none))]
+    # iter.fold(init, f): `let mut acc = init; for x in iter { acc = f(acc, x) }` (zero or one iteration per path)
+    if (nc.endswith('Iterator>::fold') or nc.endswith('Iterator::fold')) and len(args) == 3 and args[2][0] == 'closure':
+        return args[0], 'foreach', [('Some', ('app', args[2], [args[1], None], lambda v: v)), ('None', ('val', args[1]))]
     # a local closure called directly: f(a, b)
     if re.search(r'ops::Fn(Once|Mut)?>?::call(_once|_mut)?$', nc) and len(args) == 2 and args[0][0] == 'closure':
         tup = args[1]
@@ -859,6 +883,14 @@ class Fn:
                     pass
                 else:
                     return None
+        if adt == 'foreach':
+            # subject := the `next()` of the iterator at this call site
+            n = facts._inst[0] = facts._inst[0] + 1
+            nxt = ('call', 'std::iter::Iterator::next', (subject,), (bb, 'foreach', n))
+            item = ('field', ('down', nxt, 'Some'), OPT + '::Some.0')
+            branches = [(lab, ((act[0], act[1], [item if a is None else a for a in act[2]], act[3]) + tuple(act[4:5]) + ((item,) if len(act) > 4 else ())) if act[0] == 'app' else act)
+                        for lab, act in branches]
+            subject, adt = nxt, OPT
         if adt == 'direct':
             dterm, key, known = None, None, ''
             canon = lambda lab: lab
@@ -894,7 +926,9 @@ class Fn:
             if act[0] == 'val':
                 res.append((evs, act[1], 'return', m2))
                 continue
-            _, f, fargs, wrap = act
+            _, f, fargs, wrap = act[:4]
+            decide = act[4] if len(act) > 4 else None
+            decide_item = act[5] if len(act) > 5 else None
             if f[0] == 'fnitem':
                 if f[2]:
                     # a constructor used as a function
@@ -938,6 +972,15 @@ class Fn:
                 m3 = decisions_feasible(evs2, m2, facts)
                 if m3 is None:
                     continue
+                if decide is not None:
+                    tv, fv = decide[0](decide_item), decide[1]
+                    cv = const_value(retv)
+                    if cv is not None:
+                        res.append((evs + evs2, tv if cv == 1 else fv, 'return', m3))
+                    else:
+                        for lab2, val2 in (('true', tv), ('false', fv)):
+                            res.append((evs + evs2 + [Ev('atom', bb, t['line'], held, t.get('mac'), term=retv, outcome=lab2, via=t['callee'])], val2, 'return', m3))
+                    continue
                 res.append((evs + evs2, wrap(retv), 'return', m3))
         return res
 
@@ -979,6 +1022,20 @@ class Fn:
                         loc = lhs['local']
                         env = dict(env)
                         env[loc] = val
+                        # `_t = &mut L` / reborrows / moves of such a reference: remember which local it points to
+                        tgt = None
+                        if rv['k'] in ('ref', 'rawptr'):
+                            rp = rv['p']
+                            if not rp['proj']:
+                                tgt = rp['local']
+                            elif rp['proj'] == ['*']:
+                                tgt = env.get(('ref', rp['local']))
+                        elif rv['k'] == 'use' and rv['o']['k'] in ('move', 'copy') and not rv['o']['p']['proj']:
+                            tgt = env.get(('ref', rv['o']['p']['local']))
+                        if tgt is not None:
+                            env[('ref', loc)] = tgt
+                        elif ('ref', loc) in env:
+                            del env[('ref', loc)]
                         # guard moves
                         if rv['k'] == 'use' and rv['o']['k'] == 'move' and rv['o']['p']['local'] in guards \
                                 and (not rv['o']['p']['proj'] or guard_kind(self.lty.get(loc, ''))):
@@ -1140,12 +1197,13 @@ class Fn:
                             cps = cf.paths(budget=3000, max_visits=max_visits, _depth=_depth + 1, desugar=desugar)
                         except PathBudget:
                             cps = None
-                        if cps is not None and len(cps) <= 64:
+                        if cps is not None and len(cps) <= 256:
                             held_here = held_of(guards)
                             for cp in cps:
                                 facts._inst[0] += 1
                                 inst = facts._inst[0]
-                                evs2, retv, ret_held = instantiate_path(cp, args, inst, held_here, callee)
+                                pwrites = []
+                                evs2, retv, ret_held = instantiate_path(cp, args, inst, held_here, callee, writes=pwrites)
                                 # decisions the helper took on its parameters may be decided by the
                                 # caller's arguments or by what this path already knows
                                 memo_i = decisions_feasible(evs2, memo, facts)
@@ -1160,6 +1218,14 @@ class Fn:
                                 for e2 in evs2:
                                     if e2.kind == 'assign' and e2.d['place'][0] != 'var':
                                         heap2[e2.d['place']] = e2.d['value']
+                                # `helper(&mut local, ..)`: what the helper stored through the reference is the local's new value
+                                for pi, pv in pwrites:
+                                    if 1 <= pi <= len(t['args']):
+                                        ao = t['args'][pi - 1]
+                                        if ao['k'] in ('move', 'copy') and not ao['p']['proj']:
+                                            tl = env.get(('ref', ao['p']['local']))
+                                            if tl is not None:
+                                                env2[tl] = pv
                                 g2 = dict(guards)
                                 if not dest['proj']:
                                     env2[dest['local']] = retv
